@@ -97,6 +97,12 @@ fn main() {
     let ascii = ["", "A", "AB", "ABC", "ABCD", "ABCDE"];
     let text_vrs = [VR::AE, VR::AS, VR::CS, VR::DA, VR::DS, VR::DT, VR::IS, VR::LO, VR::LT, VR::PN, VR::SH, VR::ST, VR::TM, VR::UC, VR::UI, VR::UR, VR::UT];
     for &codec in &codecs {
+        // text given for an element of a BINARY value representation (what `apply(SetStr)` builds for an unknown private tag):
+        // "NUL for UI and binary VRs" — the padding byte follows the VR of the element, not the kind of value at hand
+        for &vr in &[VR::UN, VR::OB, VR::OW, VR::OD, VR::OF, VR::OL, VR::OV] {
+            for s in ascii { check(&mut t, codec, SpecificCharacterSet::default(), vr, &PrimitiveValue::Str(s.to_string()), s.as_bytes(), 0, &format!("Str {:?} under a binary VR", s)); }
+            check(&mut t, codec, SpecificCharacterSet::default(), vr, &PrimitiveValue::Strs(C::from_vec(vec!["A".to_string(), "B".to_string()])), b"A\\B", 0, "Strs [\"A\", \"B\"] under a binary VR");
+        }
         // single and multi-valued ASCII text
         for &vr in &text_vrs {
             let pad = if vr == VR::UI { 0 } else { b' ' };
